@@ -12,8 +12,9 @@ META = {
                   "--preserve-paths, none without), that the intended guard keeps every touched path below the output directory, and that a closed-form "
                   "prediction of the touched paths equals the step machine; (B) enumerates every such name x separators x preserve x chain x explicit; (C) the real "
                   "CLI binary is run as a process on archives carrying those names verbatim (entry names and listfile) inside a sandbox whose whole tree is "
-                  "snapshotted before/after; (D) TLC decides from the logged path components that every created/modified/removed path is beneath the output "
-                  "directory, and (diagnostic) that the touched set equals the model's prediction.",
+                  "snapshotted before/after (created, removed, and changed identity / permissions / size / content / mtime; decoy files are planted where the "
+                  "unguarded model would write); entries are present, listed-but-absent or corrupted, with --skip-errors on and off; (D) TLC decides from the logged "
+                  "path components that every created/modified/removed path is beneath the output directory, and (diagnostic) that the touched set equals the model's prediction.",
     "level_note": "Only Linux/posix path semantics are bound to the implementation (the windows Prefix variant is model-checked only). Names with a leading "
                   "separator are redirected into the sandbox (\\\\x -> \\\\<sandbox>\\\\r1\\\\r2\\\\root\\\\x) so that a successful escape cannot damage the host; components "
                   "a/ü/long carry the entry's index in the archive. quick: all names of <= 3 components + a seed-rotated 1/8 of the 4-component names, "
@@ -28,7 +29,7 @@ META = {
 
 def sig(b):
     r = b.get("reset") or {}
-    return {"ev": b.get("ev"), "preserve": r.get("preserve"), "hasroot": r.get("hasroot"), "hasparent": r.get("hasparent"),
+    return {"ev": b.get("ev"), "preserve": r.get("preserve"), "hasroot": r.get("hasroot"), "hasparent": r.get("hasparent"), "entries": r.get("entries", "present"),
             "modelled": "escape-as-unguarded-deviation" in str(b.get("why"))}
 
 
@@ -77,7 +78,7 @@ def run(ctx, cases_override=None):
     trace = ctx.harness(binary, cases, extra=(cli,), timeout=2400, env=env)
     res = ctx.validate("Trace_PathContain", trace, timeout=1500)
 
-    runs = ok_runs = files = names_tried = escapes = 0
+    runs = ok_runs = files = names_tried = escapes = err_runs = decoys = 0
     distinct = set()
     samples = []
     with open(trace) as f:
@@ -89,6 +90,8 @@ def run(ctx, cases_override=None):
             ok_runs += r["exit"] == 0
             files += r["nfiles"]
             names_tried += len(r["names"])
+            err_runs += any(n.get("r", "present") != "present" for n in r["names"])
+            decoys += r.get("decoys", 0)
             out = r["out"]
             esc = any(p[:len(out)] != out for p in r["created"] + r["modified"] + r["removed"])
             escapes += esc
@@ -110,6 +113,8 @@ def run(ctx, cases_override=None):
         "process_runs_exit0": ok_runs,
         "files_created_by_cli": files,
         "runs_with_path_outside_out": escapes,
+        "runs_with_unreadable_entries": err_runs,
+        "decoy_files_planted_outside_out": decoys,
         "runs_where_model_prediction_of_touched_paths_differs": drift,
         "evaluations": names_tried,
         "distinct_nontrivial": len(distinct),
